@@ -150,7 +150,7 @@ def _work(spec):
 
 def family(tier):
     q = tier == "quick"
-    base = list(F.undirected([1, 2, 3, 4], 3 if q else 4, isolated=False, multi=False))
+    base = list(F.undirected([1, 2, 3, 4], 3 if q else 5, isolated=False, multi=False))
     if not q:
         base += [s for s in F.undirected([1, 2, 3, 4, 5], 3, isolated=False, multi=False, min_edges=2) if 5 in s["nodes"]]
     else:
